@@ -103,6 +103,27 @@ Theorem C16_jsonl_table_element_refuted :
 Proof. exact jsonl_table_element_refuted. Qed.
 Print Assumptions C16_jsonl_table_element_refuted.
 
+(* ... and the model predicts them for every input of their shape (so the
+   correspondence run compares them exactly instead of skipping them). *)
+Theorem C16_jsonl_row_past_end_predicted : forall rows key k,
+  all_digits key = true -> atoi key = Some k -> zlen rows <= k ->
+  jsonl_index false [key] rows = Ok (OutVal (JArr [])).
+Proof. exact jsonl_row_past_end_predicted. Qed.
+Print Assumptions C16_jsonl_row_past_end_predicted.
+
+Theorem C16_jsonl_negative_is_column_name : forall rows r rest t,
+  rows = r :: rest -> existsb is_arr rows = true -> table_rows rows = Some t ->
+  forall key, special_param (45%N :: key) = false ->
+  jsonl_index false [45%N :: key] rows = table_cols [45%N :: key] t.
+Proof. exact jsonl_negative_is_column_name. Qed.
+Print Assumptions C16_jsonl_negative_is_column_name.
+
+Theorem C16_jsonl_table_element_predicted : forall rows sep key,
+  forallb is_arr rows = true -> key <> [] -> existsb (N.eqb sep) key = false ->
+  exists e, jsonl_element (sep :: key) rows = Err e.
+Proof. exact jsonl_table_element_predicted. Qed.
+Print Assumptions C16_jsonl_table_element_predicted.
+
 (* The code before the fix (no `i < 0` test after adding the length): `[-5]` on
    three elements reaches v[-2]. *)
 Theorem C16_prefix_index_panics :
